@@ -21,7 +21,8 @@ Template directives (line based, inside an otherwise ordinary Verus file):
     //@ loop-iter <k> <name>     name the ghost iterator of for-loop k:  for x in e  becomes  for x in name: e
     //@ boolops                  apply R14 to `|=` / `&=` in this function
     //@ debug-assert keep|drop   R6: turn debug_assert!/assert! into proof obligations (default keep) or drop them
-    //@ replace <from> => <to>   literal replacement inside the copied text (logged as manual rewrite; must match once)
+    //@ replace <from> => <to>   literal replacement inside the copied text (logged as manual rewrite; must match once);
+    //                           `ws:<from>` matches with any white space between the blank-separated tokens of <from>
     //@ rename-generic <A> <B>   R11
     //@ end
 """
@@ -508,6 +509,15 @@ def _apply_replaces(pieces, d, it, report):
     for text, origin in pieces:
         if origin[0] == "repo":
             for i, (a, b) in enumerate(d.replaces):
+                if a.startswith("ws:"):
+                    # whitespace-insensitive form: blanks in the pattern match any run of white space (an expression spread over
+                    # several lines); the line breaks it covered are kept so that line numbers still map to the repository
+                    rx = re.compile(r"\s*".join(re.escape(tok) for tok in a[3:].split()))
+                    def _sub(m, b=b):
+                        return b + "\n" * m.group(0).count("\n")
+                    text, c = rx.subn(_sub, text)
+                    counts[i] += c
+                    continue
                 c = text.count(a)
                 if c:
                     counts[i] += c
